@@ -132,6 +132,20 @@ theorem choose_prefers {pref : List α} {t : α} {as : List α} (hu : UniquePref
         simp [this]
       | cons b l => rw [hpi] at hl; simp at hl
 
+/-- If the variable's own name is preferred, a renaming decision can only be "call it by its own name". -/
+theorem choose_rename_of_target_pref {pref : List α} {t : α} {as : List α} (hu : UniquePref pref t as)
+    (ht : t ∈ pref) {x : α} (h : choose pref t as = .rename x) : x = t := by
+  unfold choose at h
+  split at h
+  · simp [ht] at h
+  · split at h
+    · cases h
+    · rename_i y hy
+      cases h
+      have hx := (mem_prefInter pref t as x).mp (by rw [hy]; simp)
+      exact hu x hx.2 t ht hx.1 (Or.inr rfl)
+    · cases h
+
 theorem choose_ambiguous {pref : List α} {t : α} {as : List α} {p q : α} (hne : p ≠ q)
     (hp : p ∈ pref) (hq : q ∈ pref) (hpa : p ∈ as) (hqa : q ∈ as) : choose pref t as = .ambiguous := by
   have hmp : p ∈ prefInter pref t as := (mem_prefInter pref t as p).mpr ⟨Or.inl hpa, hp⟩
